@@ -21,6 +21,7 @@ import (
 	"encoding/json"
 	"fmt"
 	"os"
+	"runtime/debug"
 	"sort"
 	"strconv"
 	"strings"
@@ -56,6 +57,7 @@ func mutSpec(depth int) *mc.Spec {
 }
 
 func runWorker(r *evid.Run, job string) {
+	debug.SetGCPercent(1000)
 	measureOverhead()
 	f := strings.Split(job, ":")
 	seed, _ := strconv.ParseInt(f[1], 10, 64)
